@@ -1,5 +1,5 @@
 import Driver.Loop
-import TrustfallModel.Model.Ty
+import TrustfallModel.Model.Serial
 /-!
 Driver commands for `Ty` (C17).  A type travels structurally as `(T <hex base name> n0 n1 … nk)`:
 nullability flags (`1` nullable, `0` non-null) from the outermost level to the base, so `k` is the
@@ -18,6 +18,14 @@ construction panics and the answer to any command is `panic`.
   (ty-aslist t)        → none | (T …)
   (ty-withnull t 0|1)  → (T …)
   (ty-orderable t)     → 1 | 0
+
+C16:
+  (ty-roundtrip t)         → err | (T …) | panic   parse(display t)  (= serde of `Type`)
+  (tv-roundtrip v)         → err | <value>          FieldValue → TransparentValue → untagged JSON → back
+  (tv-roundtrip-lossy v)   → same, float leaves rendered `(f _)`   (stream of floats hit by F-28)
+  (fv-serde v)             → <value>                tagged serde of FieldValue: the model says identity
+  (fv-serde-lossy v)       → same, float leaves rendered `(f _)`
+  (ir-roundtrip <hex>)     → ok                     implementation-only stream (derived serde of the IR)
 -/
 namespace TF.Driver
 open TF Sexp Ty
@@ -103,6 +111,38 @@ def handleTy : String → List Sexp → Option String
   | "ty-aslist", [a] => with1 a fun t => renderOptTy t.asList
   | "ty-withnull", [a, atom n] => with1 a fun t => renderTy (withNullability t (n == "1"))
   | "ty-orderable", [a] => with1 a fun t => bit (isOrderable t)
+  | _, _ => none
+
+mutual
+/-- Canonical text of a value with every float leaf masked. -/
+def renderMasked : Value → String
+  | .float64 _ => "(f _)"
+  | .list l => "(l" ++ renderMaskedList l ++ ")"
+  | v => Value.render v
+def renderMaskedList : List Value → String
+  | [] => ""
+  | x :: xs => " " ++ renderMasked x ++ renderMaskedList xs
+end
+
+def handleSerial : String → List Sexp → Option String
+  | "ty-roundtrip", [a] => with1 a fun t =>
+      match parse (display t) with
+      | .ok none => "err"
+      | .ok (some u) => renderTy u
+      | .panic => "panic"
+  | "tv-roundtrip", [v] => do
+    let val ← toValue v
+    match Serial.transparentRoundtrip val with
+    | some w => pure (Value.render w)
+    | none => pure "err"
+  | "tv-roundtrip-lossy", [v] => do
+    let val ← toValue v
+    match Serial.transparentRoundtrip val with
+    | some w => pure (renderMasked w)
+    | none => pure "err"
+  | "fv-serde", [v] => Value.render <$> toValue v
+  | "fv-serde-lossy", [v] => renderMasked <$> toValue v
+  | "ir-roundtrip", [atom _] => some "ok"
   | _, _ => none
 
 end TF.Driver
